@@ -3,6 +3,7 @@ package drive
 import (
 	"bytes"
 	"fmt"
+	"io"
 	"math/rand"
 
 	"github.com/ulikunitz/xz"
@@ -39,9 +40,14 @@ func runXZ(c *hx.Ctx, g XZCfg, hist []string, seed int64, fixedData [][]byte) XZ
 		replay["data"] = hx
 	}
 	sink := &RecSink{}
+	var target io.Writer = onlyWriter{sink}
+	if (seed+int64(len(hist)))%2 == 1 {
+		target = byteSink{sink} // also an io.ByteWriter
+	}
+	replay["sinkIsByteWriter"] = (seed+int64(len(hist)))%2 == 1
 	var w *xz.Writer
 	var err error
-	if p := safely(func() { w, err = g.lib().NewWriter(sink) }); p != nil || err != nil {
+	if p := safely(func() { w, err = g.lib().NewWriter(target) }); p != nil || err != nil {
 		c.Violation(sig("new-failed"), fmt.Sprintf("NewWriter(%v) failed: %v %v", g, err, p), replay)
 		res.Failed = true
 		return res
